@@ -49,7 +49,7 @@ def _c16_small(args):
     if tx == ty or idx % 7 == 0:
         out.append(x_misc.observe_numconv(fx, np, [pid], tx, xs))
         out.append(x_misc.observe_numconv(fx, np, [pid], tx, xs, byvalue=True))
-        out.append(x_misc.observe_numconv(fx, np, [pid], tx, xs, hist=['inplace', 'view', 'elementwise', 'intfmt'][idx % 4]))
+        out.append(x_misc.observe_numconv(fx, np, [pid], tx, xs, hist=['inplace', 'view', 'elementwise', 'intfmt', 'shifted', 'element'][idx % 6]))
     return _tag(out)
 
 
